@@ -14,7 +14,8 @@ Op vocabulary (positional arguments first, `o=<slot>` selects the array, default
   mk_new to=<k> cap=<n> exp=<decimal> | mk_new_default to=<k>   (a further independent array in a free slot)
   drop o=<k> | destroy | destroy_cb | observe
 
-focus: None (C01 core ops only), "iter", "derived", "sort", "reject", "growth", "fault", "all".
+focus: None (C01 core ops only), "iter", "derived", "sort", "reject", "growth", "fault", "all";
+`scale(rng, tier)`: a few long sparse histories (1100-1500 elements, several hundred calls after the fill).
 No `fail=` is ever generated (the runner adds refusals).
 About a third of the histories of every focus run in sparse observation mode (`obs=sparse` on the
 constructor line, `observe` every 5-15 operations and before the final destroy; CONVENTIONS addendum 2).
@@ -131,6 +132,22 @@ class ArrayGen:
         out.append(["new cap=0 exp=2", "destroy"])
         if focus in ("iter", "growth", "all"):
             out += self.same_array_zips()
+        if focus in ("iter", "all"):
+            # iterator sessions interleaved with direct calls on the iterated array
+            direct = ["remove_last", "remove_at 0", "remove_all", "add 9", "add_at 8 0", "trim_capacity"]
+            itops = ["it_next", "it_add 7", "it_remove", "it_replace 6", "it_index"]
+            for cap, ex in ((2, "2"), (3, "1.5")):
+                for d in direct:
+                    for a in itops:
+                        for b in itops:
+                            out.append([f"new cap={cap} exp={ex}", "add 1", "add 2", "add 3", "it_new", "it_next", "it_next", d, a, b,
+                                        "it_next", "get_last", "destroy"])
+                for short in (0, 1):
+                    out.append([f"new cap={cap} exp={ex}", "add 1", "add 2", "add 3", "mk_copy_shallow to=1", "zit_new o=0 p=1", "zit_next", "zit_next",
+                                "zit_next", f"remove_last o={short}", f"remove_last o={short}", "zit_add 7 8", "zit_remove", "zit_replace 1 2", "zit_next",
+                                f"add 5 o={short}", "zit_next", "zit_add 9 10", "zit_index", "destroy"])
+                out.append([f"new cap={cap} exp={ex}", "add 1", "add 2", "add 3", "it_new", "it_next", "it_next", "it_next", "remove_last",
+                            "remove_last", "it_add 7", "it_remove", "it_replace 5", "it_next", "add 4", "add 5", "it_next", "it_add 8", "destroy"])
         if focus in ("sort", "all"):
             out += self.sort_mutate_sort()
         if focus in ("derived", "all"):
@@ -195,6 +212,97 @@ class ArrayGen:
         ops += [f"add 6 o={k}", "observe", f"drop o={k}"]
         return ops
 
+    # ------------------------------------------------------------------ scale
+    def scale(self, rng, tier):
+        """a few LONG sparse histories: 1100-1500 elements, then several hundred calls that hit the front,
+        the middle and the back (long tails behind a removal, long shifts in front of an insertion),
+        iterator sweeps with removals, sorts, reverse, trim, copies and filters; `observe` every ~50 calls.
+        (`filter_mut` is left to the other streams: the model replays its per-cluster memmoves on a list, which
+        is quadratic per move.)"""
+        n_hist = 4 if tier == "quick" else 24
+        caps = [1, 7, 8, 9, 255, 256, 257, 300, 1000, 1023, 1024, 1025, 4100]
+        out = []
+        for h in range(n_hist):
+            cap = caps[(h * 5 + rng.randint(0, 2)) % len(caps)]
+            ex = ["1.01", "1.5", "2", "3"][h % 4]
+            n = rng.randint(1100, 1500)
+            ops = [f"new cap={cap} exp={ex} obs=sparse"]
+            xs = []
+            gap = [rng.randint(35, 60)]
+
+            def emit(op):
+                ops.append(op)
+                gap[0] -= 1
+                if gap[0] <= 0:
+                    ops.append("observe"); gap[0] = rng.randint(35, 60)
+            for i in range(n):
+                v = (i * 7 + 3) if rng.random() < 0.9 else pick_value(rng)     # mostly distinct
+                emit(f"add {v}"); xs.append(v)
+            emit("capacity")
+            if h % 2 == 0 or ex == "3":
+                emit("trim_capacity")       # exactly full: the next insertion grows
+            for _ in range(rng.randint(250, 400)):
+                m = len(xs)
+                r = rng.random()
+                if m < 40:
+                    v = rng.randint(1, 10 ** 6); emit(f"add {v}"); xs.append(v); continue
+                third = m // 3
+                if r < 0.14:
+                    i = rng.choice([0, 1, third, m // 2, m - 40, rng.randint(0, m - 35)])
+                    emit(f"remove_at {i}{maybe_noout(rng, 0.2)}"); del xs[i]
+                elif r < 0.24:
+                    i = rng.choice([0, 2, third, rng.randint(0, m // 2)])
+                    v = xs[i]; emit(f"remove {v}{maybe_noout(rng, 0.2)}"); xs.remove(v)
+                elif r < 0.30:
+                    emit("remove_last"); xs.pop()
+                elif r < 0.42:
+                    i = rng.choice([0, 1, third, m // 2, m, m - 1]); v = 10 ** 7 + rng.randint(0, 10 ** 6)
+                    emit(f"add_at {v} {i}"); xs.insert(i, v)
+                elif r < 0.52:
+                    v = 2 * 10 ** 7 + rng.randint(0, 10 ** 6); emit(f"add {v}"); xs.append(v)
+                elif r < 0.62:
+                    emit(f"get_at {rng.choice([0, 1, third, m - 1, m, m + 1])}")
+                elif r < 0.66:
+                    i = rng.choice([0, third, m - 1]); v = rng.randint(1, 999); emit(f"replace_at {v} {i}"); xs[i] = v
+                elif r < 0.70:
+                    i, j = rng.choice([(0, m - 1), (third, m // 2), (1, m - 2)]); emit(f"swap_at {i} {j}"); xs[i], xs[j] = xs[j], xs[i]
+                elif r < 0.74:
+                    emit(f"index_of {xs[rng.choice([0, third, m - 1])]}")
+                elif r < 0.77:
+                    emit(f"contains {xs[rng.randint(0, m - 1)]}")
+                elif r < 0.80:
+                    emit("get_last")
+                elif r < 0.83:
+                    # iterator sweep over the front with removals and insertions (long tails behind)
+                    emit("it_new"); pos = 0
+                    for _ in range(rng.randint(3, 25)):
+                        emit("it_next"); pos += 1
+                        q = rng.random()
+                        if q < 0.3: emit("it_remove"); pos -= 1; del xs[pos]
+                        elif q < 0.5: v = 3 * 10 ** 7 + rng.randint(0, 999); emit(f"it_add {v}"); xs.insert(pos, v); pos += 1
+                        elif q < 0.6: v = rng.randint(1, 99); emit(f"it_replace {v}"); xs[pos - 1] = v
+                elif r < 0.86:
+                    emit("reverse"); xs.reverse()
+                elif r < 0.885:
+                    emit("sort"); xs.sort()
+                elif r < 0.90:
+                    emit("sort_mod"); xs.sort(key=lambda v: v % 10)
+                elif r < 0.92:
+                    emit("trim_capacity"); emit("capacity")
+                elif r < 0.95:
+                    kind = rng.choice(["mk_copy_shallow", "mk_copy_deep", "mk_filter", f"mk_sub {third} {m - 2}", "mk_sub 0 40"])
+                    emit(f"{kind} to=1")
+                    emit("remove_at 0 o=1"); emit("add 5 o=1"); emit("get_last o=1"); emit("observe"); emit("drop o=1")
+                elif r < 0.96:
+                    emit("map")
+                elif r < 0.965:
+                    emit("reduce 7")
+                else:
+                    emit("capacity")
+            ops += ["observe", "get_at 0", "get_last", "observe", "destroy_cb" if h % 2 else "destroy"]
+            out.append(ops)
+        return out
+
     def same_array_zips(self):
         """zip iterator with the same array on both sides, at capacities 1-4 with exactly 0 or 1 free
         slots (by construction, and after a trim): every call acts twice on one object, so `zit_add`
@@ -203,7 +311,10 @@ class ArrayGen:
         progs = [["zit_add 7 8", "zit_next", "zit_add 9 10", "zit_index", "zit_next", "zit_remove", "zit_next", "zit_replace 5 6"],
                  ["zit_next", "zit_add 7 8", "zit_add 9 10", "zit_next", "zit_next", "zit_remove", "zit_remove", "zit_next"],
                  ["zit_next", "zit_next", "zit_add 7 8", "zit_remove", "zit_add 9 10", "zit_replace 5 6", "zit_next", "zit_next", "zit_remove"],
-                 ["zit_next", "zit_remove", "zit_add 7 8", "zit_next", "zit_next", "zit_next", "zit_remove", "zit_index"]]
+                 ["zit_next", "zit_remove", "zit_add 7 8", "zit_next", "zit_next", "zit_next", "zit_remove", "zit_index"],
+                 # direct calls between the zip calls: the array is shortened behind the cursor, then lengthened
+                 ["zit_next", "zit_next", "remove_last", "remove_last", "zit_add 7 8", "zit_remove", "zit_replace 5 6", "zit_next", "add 4",
+                  "zit_next", "zit_add 9 10"]]
         tail = ["get_last", "capacity", "add 3", "map", "destroy"]
         for cap in (1, 2, 3, 4):
             for ex in ("2", "1.5", "1.1"):
@@ -211,6 +322,16 @@ class ArrayGen:
                     fill = [f"add {i + 1}" for i in range(nfill)]
                     for pr in progs:
                         out.append([f"new cap={cap} exp={ex}"] + fill + ["zit_new o=0 p=0"] + pr + tail)
+        # self-zip x capacity {1, 2} x fail=k: which of the (up to two) growth steps of one zit_add is refused
+        for cap in (1, 2):
+            for ex in ("2", "1.5"):
+                for nfill in range(0, cap + 1):
+                    fill = [f"add {i + 1}" for i in range(nfill)]
+                    for pre in ([], ["zit_next"]):
+                        for kf in (1, 2, 3):
+                            out.append([f"new cap={cap} exp={ex}"] + fill + ["zit_new o=0 p=0"] + pre +
+                                       [f"zit_add 7 8 fail={kf}", "zit_index", "capacity", "zit_next", f"zit_add 9 10 fail={kf}", "zit_add 5 6",
+                                        "zit_next", "zit_remove"] + tail)
         for n in (1, 2, 3, 5):
             for ex in ("2", "1.5"):
                 for extra in ([], ["add 9"]):
@@ -264,12 +385,12 @@ class ArrayGen:
         if focus in ("sort", "all"):
             extra += [("sort", 4), ("sort_mod", 4), ("sort_mut_sort", 5)]
         if focus in ("iter", "all"):
-            extra += [("iter_prog", 6), ("zip_prog", 3), ("zip_same_prog", 0.35)]
+            extra += [("iter_prog", 6), ("zip_prog", 3), ("zip_same_prog", 0.35), ("iter_mixed_prog", 2.5)]
         if focus in ("derived", "all"):
             extra += [("mk", 6), ("drop", 1.5), ("other", 10)]
         if focus == "fault":
             core = [("add", 10), ("add_at", 6), ("trim_capacity", 4), ("remove_last", 3), ("remove_at", 2), ("filter_mut", 1)]
-            extra = [("mk", 5), ("drop", 2), ("other", 4), ("iter_add_prog", 3), ("zip_add_prog", 2), ("zip_same_prog", 0.8)]
+            extra = [("mk", 5), ("drop", 2), ("other", 4), ("iter_add_prog", 3), ("zip_add_prog", 2), ("zip_same_prog", 0.8), ("iter_mixed_prog", 1)]
         if focus == "growth":
             core = [("add", 30), ("add_at", 6), ("remove_last", 3), ("trim_capacity", 1.5), ("remove_at", 1), ("capacity", 1)]
             extra += [("zip_same_prog", 0.08)]
@@ -389,6 +510,39 @@ class ArrayGen:
                     if rng.random() < 0.2: ops.append("it_index")
                     if rng.random() < 0.08 or len(ops) > length + 40:
                         break
+            elif op == "iter_mixed_prog":
+                # an iterator session interleaved with direct calls on the iterated array (legal for an
+                # index-based iterator): the array is lengthened / shortened behind and before the cursor
+                k = rng.choice(sorted(L)); xs = L[k]; sfx = f" o={k}" if k else ""
+                invalidate(k)
+                ops.append("it_new" + sfx)
+                pos = 0
+                for _ in range(rng.randint(3, 14)):
+                    r = rng.random()
+                    if r < 0.45:
+                        ops.append("it_next")
+                        if pos < len(xs): pos += 1
+                    elif r < 0.55:
+                        v = pick_value(rng); ops.append(f"it_add {v}")
+                        if pos <= len(xs): xs.insert(pos, v); pos += 1
+                    elif r < 0.65:
+                        ops.append("it_remove" + maybe_noout(rng))
+                        if 0 < pos <= len(xs): pos -= 1; del xs[pos]
+                    elif r < 0.72:
+                        v = pick_value(rng); ops.append(f"it_replace {v}{maybe_noout(rng)}")
+                        if 0 < pos <= len(xs): xs[pos - 1] = v
+                    elif r < 0.77:
+                        ops.append("it_index")
+                    else:
+                        d = rng.choice(["add", "add_front", "remove_last", "remove_last", "remove_front", "remove_all", "trim_capacity",
+                                        "filter_mut", "reverse"])
+                        if d == "add": emit_core("add", k)
+                        elif d == "add_front": v = pick_value(rng); ops.append(f"add_at {v} 0{sfx}"); xs.insert(0, v)
+                        elif d == "remove_front":
+                            ops.append(f"remove_at 0{sfx}{maybe_noout(rng)}")
+                            if xs: del xs[0]
+                        else: emit_core(d, k)
+                    if rng.random() < 0.25: ops.append(f"get_last{sfx}")
             elif op == "sort_mut_sort":
                 # sort, 1-3 mutations that break sortedness (largest value to the front, smallest to the
                 # end, ...), sort again with the same or the other comparator, observe
